@@ -465,6 +465,21 @@ class UnificationDict(UserDict):
         return super().__getitem__(key).value
 
 
+def _forget_required_variables_() -> None:
+    """
+    The variables that a node has to deliver are memoised per node, but they depend on the query that evaluates it: a
+    condition or sub-query object that several queries use (with different selections) is asked for different variables
+    by each of them. They are worked out again for every evaluation.
+    """
+    classes = [SymbolicExpression]
+    while classes:
+        cls = classes.pop()
+        classes.extend(cls.__subclasses__())
+        memoised = cls.__dict__.get('_required_variables_from_child_')
+        if memoised is not None and hasattr(memoised, 'cache_clear'):
+            memoised.cache_clear()
+
+
 @dataclass(eq=False)
 class The(ResultQuantifier[T]):
     """
@@ -474,6 +489,7 @@ class The(ResultQuantifier[T]):
     def evaluate(self) -> TypingUnion[Iterable[T], T, UnificationDict]:
         # start from a clean state whatever happened to earlier evaluations, and leave a clean state behind on any exit
         self._reset_cache_()
+        _forget_required_variables_()
         try:
             # like an(), evaluate concretely whatever the mode of the caller: predicates are executed and inferred
             # instances are constructed, not built symbolically.
@@ -530,6 +546,7 @@ class An(ResultQuantifier[T]):
         # start from a clean state whatever happened to earlier evaluations, and leave a clean state behind on any exit
         # (exhausted, closed early, abandoned or aborted by an exception raised from user code).
         self._reset_cache_()
+        _forget_required_variables_()
         results = self._evaluate__()
         try:
             while True:
